@@ -18,7 +18,8 @@ CONSTANTS PoolSizes,     \* set of pool sizes (number of worker threads) explore
           WithEnqueue,   \* BOOLEAN: callers may also use the raw enqueue() (tasks nobody waits for)
           MayThrow,      \* BOOLEAN: the user operator may throw
           Spurious,      \* BOOLEAN: spurious wake-ups of condition_variable::wait
-          AnyOrder       \* BOOLEAN: workers may take any queued task (FALSE: the oldest one, as the code does)
+          AnyOrder,      \* BOOLEAN: workers may take any queued task (FALSE: the oldest one, as the code does)
+          StopUnlocked   \* BOOLEAN, negative control only: ~pool_t raises m_stop WITHOUT taking the queue's mutex (FALSE: as the code does)
 
 VARIABLES nw,        \* pool size
           queue,     \* m_tasks: Seq of tasks
@@ -85,9 +86,17 @@ WCheckGo(w) == /\ wpc[w] = "check" /\ mutex = <<"w", w>> /\ Pred
                /\ wpc' = [wpc EXCEPT ![w] = "locked"]
                /\ UNCHANGED <<nw, queue, mutex, stop, waiting, wtask, running, cvars, done, threw, runs, ovars>>
 \* ... pred false -> atomically release the mutex and block
-WCheckBlock(w) == /\ wpc[w] = "check" /\ mutex = <<"w", w>> /\ ~Pred
+\* (with the mutex-protected stop flag the evaluation of the predicate and the registration as a waiter are one atomic step; when the
+\*  flag is written outside the mutex (StopUnlocked) the writer can run between the two, which is the classical lost wake-up)
+WCheckBlock(w) == /\ ~StopUnlocked /\ wpc[w] = "check" /\ mutex = <<"w", w>> /\ ~Pred
                   /\ mutex' = Free /\ waiting' = waiting \cup {w} /\ wpc' = [wpc EXCEPT ![w] = "acquire"]
                   /\ UNCHANGED <<nw, queue, stop, wtask, running, cvars, done, threw, runs, ovars>>
+WCheckEval(w) == /\ StopUnlocked /\ wpc[w] = "check" /\ mutex = <<"w", w>> /\ ~Pred
+                 /\ wpc' = [wpc EXCEPT ![w] = "sleepy"]
+                 /\ UNCHANGED <<nw, queue, mutex, stop, waiting, wtask, running, cvars, done, threw, runs, ovars>>
+WSleep(w) == /\ wpc[w] = "sleepy" /\ mutex = <<"w", w>>
+             /\ mutex' = Free /\ waiting' = waiting \cup {w} /\ wpc' = [wpc EXCEPT ![w] = "acquire"]
+             /\ UNCHANGED <<nw, queue, stop, wtask, running, cvars, done, threw, runs, ovars>>
 \* if (m_stop) { m_tasks.clear(); notify_all(); break; }
 WStop(w) == /\ wpc[w] = "locked" /\ mutex = <<"w", w>> /\ stop
             /\ queue' = <<>> /\ waiting' = {} /\ mutex' = Free /\ wpc' = [wpc EXCEPT ![w] = "exit"]
@@ -113,7 +122,7 @@ WRunEnd(w, ok) == /\ wpc[w] = "run" /\ running[w] # NoTask /\ (ok \/ MayThrow)
                   /\ UNCHANGED <<nw, queue, mutex, stop, waiting, cvars, runs, ovars>>
 SpuriousWake(w) == /\ Spurious /\ w \in waiting /\ waiting' = waiting \ {w}
                    /\ UNCHANGED <<nw, queue, mutex, stop, wvars, cvars, done, threw, runs, ovars>>
-WorkerStep(w) == WAcquire(w) \/ WCheckGo(w) \/ WCheckBlock(w) \/ WStop(w) \/ WPop(w) \/ WRunBegin(w)
+WorkerStep(w) == WAcquire(w) \/ WCheckGo(w) \/ WCheckBlock(w) \/ WCheckEval(w) \/ WSleep(w) \/ WStop(w) \/ WPop(w) \/ WRunBegin(w)
                  \/ WRunEnd(w, TRUE) \/ WRunEnd(w, FALSE)
 
 ---------------------------------------------------------------------------------------
@@ -192,18 +201,22 @@ CallerStep(c) == CStart(c) \/ CInlineBegin(c) \/ CInlineEnd(c, TRUE) \/ CInlineE
 
 ---------------------------------------------------------------------------------------
 \* owner: ~pool_t  { scoped_lock; m_stop = true; } notify_all; join all
-OLock == /\ WithShutdown /\ opc = "alive" /\ \A c \in Callers : cpc[c] = "idle"
+OLock == /\ ~StopUnlocked /\ WithShutdown /\ opc = "alive" /\ \A c \in Callers : cpc[c] = "idle"
          /\ mutex = Free /\ mutex' = <<"o">> /\ opc' = "setstop"
          /\ UNCHANGED <<nw, queue, stop, waiting, wvars, cvars, done, threw, runs, joined>>
 OStop == /\ opc = "setstop" /\ mutex = <<"o">> /\ stop' = TRUE /\ mutex' = Free /\ opc' = "notify"
          /\ UNCHANGED <<nw, queue, waiting, wvars, cvars, done, threw, runs, joined>>
+\* negative control: the flag is raised without the mutex
+OStopUnlocked == /\ StopUnlocked /\ WithShutdown /\ opc = "alive" /\ \A c \in Callers : cpc[c] = "idle"
+                 /\ stop' = TRUE /\ opc' = "notify"
+                 /\ UNCHANGED <<nw, queue, mutex, waiting, wvars, cvars, done, threw, runs, joined>>
 ONotify == /\ opc = "notify" /\ waiting' = {} /\ opc' = "join"
            /\ UNCHANGED <<nw, queue, mutex, stop, wvars, cvars, done, threw, runs, joined>>
 OJoin == /\ opc = "join" /\ \E w \in Workers \ joined : wpc[w] = "exit" /\ joined' = joined \cup {w}
          /\ UNCHANGED <<nw, queue, mutex, stop, waiting, wvars, cvars, done, threw, runs, opc>>
 ODone == /\ opc = "join" /\ joined = Workers /\ opc' = "dead"
          /\ UNCHANGED <<nw, queue, mutex, stop, waiting, wvars, cvars, done, threw, runs, joined>>
-OwnerStep == OLock \/ OStop \/ ONotify \/ OJoin \/ ODone
+OwnerStep == OLock \/ OStop \/ OStopUnlocked \/ ONotify \/ OJoin \/ ODone
 
 Next == \/ \E w \in Workers : WorkerStep(w) \/ SpuriousWake(w)
         \/ \E c \in Callers : CallerStep(c)
@@ -243,7 +256,7 @@ TnumExclusive == \A a1, a2 \in Active : (a1 # a2 /\ a1[1].c = a2[1].c /\ a1[1].k
 ReturnAfterAllDone == \A c \in Callers : (Returned(c) /\ cpath[c] = "pool") => TaskSetOf(c) \subseteq done
 RethrowIffAsked == \A c \in Callers : (Returned(c) /\ cpath[c] = "pool") =>
                        (cret[c] = "rethrow" <=> (cargs[c].raise /\ TaskSetOf(c) \cap threw # {}))
-MutexExclusive == /\ \A w \in Workers : (wpc[w] \in {"check", "locked"}) <=> (mutex = <<"w", w>>)
+MutexExclusive == /\ \A w \in Workers : (wpc[w] \in {"check", "locked", "sleepy"}) <=> (mutex = <<"w", w>>)
                   /\ \A c \in Callers : (cpc[c] \in {"push", "epush"}) <=> (mutex = <<"c", c>>)
                   /\ (opc = "setstop") <=> (mutex = <<"o">>)
 WaitingConsistent == \A w \in waiting : w \in Workers /\ wpc[w] = "acquire"
